@@ -12,7 +12,7 @@ import numpy as np
 from hypothesis import strategies as st
 
 from .. import PropertyViolation
-from ..datasets import Dataset, Workdir, dataset_specs, materialise, place_pressures, write_input02
+from ..datasets import Dataset, Workdir, dataset_specs, materialise, place_pressures, write_input02, write_settings
 from ..refmodel import PhononReference, static_moduli, static_pressure, strain_fractions, validated_frame
 from ..reftensor import KEYS21
 from .. import refphys
@@ -22,7 +22,7 @@ SHARDS = {"quick": 16, "thorough": 16}
 RULE = ("Hypothesis draws data sets (5-9 volumes, 1-4 q-points, 1-3 atoms, spectrum ln nu polynomial in ln V of a degree the "
         "configured interpolant reproduces exactly, BM3 static energy, PD static tensors in one of nine systems with a sufficient "
         "or complete column subset in drawn order, optional lattice block) and settings (interpolator x order, NT, DT, T_MIN, NTV, "
-        "volume_ratio, pressures inside the qha range); non-trivial = lattice block or non-orthotropic system, >=2 q-points and T>0 rows; "
+        "volume_ratio, pressures inside the qha range) and a history (nothing / another calculation in the same process on the same files with volume_ratio x 1.07 or T_MIN + 7 K); non-trivial = lattice block or non-orthotropic system, >=2 q-points and T>0 rows; "
         "distinct by the drawn spec")
 ASSUMPTIONS = [
     "QHA's P(T,V) and C_V are observed (trusted producer), as the property states for the off-diagonal pressure term",
@@ -53,6 +53,7 @@ def cases(draw):
     fam = draw(st.sampled_from(["power", "poly2", "poly3"][:maxdeg] + ["generic"]))
     s["family"] = fam
     s["metamorphic"] = draw(st.sampled_from(["none", "none", "shift", "scale"]))
+    s["prior"] = draw(st.sampled_from(["none", "other-ratio", "none", "other-temperatures", "other-ratio"]))     # what ran before in this process
     s["static_rows"] = draw(st.sampled_from(["as-is", "as-is", "reversed", "shuffled"]))     # the static table has its own volume column
     if draw(st.integers(0, 7)) == 0:
         # a fine volume / pressure grid (hundreds of points, steps of ~1e-3 in ln V) with a lattice block
@@ -74,6 +75,17 @@ def observe(ctx, s, ds, qs, case, static_override=None):
             row_order = [int(x) for x in np.random.default_rng(s["seed"] ^ 0x77).permutation(ds.nv_static)]
         if static_override is not None or row_order is not None:
             write_input02(os.path.join(wd, "input02"), ds, table=static_override, row_order=row_order)
+        prior = s.get("prior", "none")
+        if prior != "none":
+            # history: another calculation ran in this process on the same files with another volume grid / temperature
+            # grid (same NTV, same static table).  Its outcome is not observed; a refusal of that grid is fine.
+            qs2 = dict(qs, volume_ratio=float(qs["volume_ratio"]) * 1.07) if prior == "other-ratio" else dict(qs, T_MIN=float(qs["T_MIN"]) + 7.0)
+            ext = os.path.splitext(path)[1]
+            write_settings(os.path.join(wd, "prior" + ext), ds, qs2)
+            try:
+                cc.Calculator(os.path.join(wd, "prior" + ext))
+            except Exception:
+                pass
         calc = ctx.observe(cc.Calculator, path, _bucket="C05/crash", _case=case)
         obs = {
             "T": np.array(calc.t_array, dtype=float),
@@ -227,7 +239,7 @@ def sub_end_to_end(ctx):
         cl = ["interp-" + s["interpolator"], "family-" + s["family"], "system-" + s["system"],
               "fill-requested" if s["apply_system"] else "no-fill", "lattice" if s["lattice"] else "no-lattice",
               "metamorphic-" + s["metamorphic"], "non-orthotropic-keys" if nonortho else "orthotropic-keys",
-              "static-rows-" + s.get("static_rows", "as-is"), "NTV>150" if s["ntv"] > 150 else "NTV<=41"]
+              "static-rows-" + s.get("static_rows", "as-is"), "prior-run-" + s.get("prior", "none"), "NTV>150" if s["ntv"] > 150 else "NTV<=41"]
         ctx.case(s, nt, classes=cl)
 
     ctx.run_given(body, cases(), max_examples=ctx.n(160, 10000), shrink=not ctx.quick)
